@@ -30,11 +30,11 @@ Lemma skel_handler_SyncMaxTS_ok : skel_handler_SyncMaxTS =
 Proof. reflexivity. Qed.
 
 Lemma skel_lta_WriteTSO_ok : skel_lta_WriteTSO =
-  [Call "GetCurrentTSO"; IfE "err != nil" [Ret] []; Call "CompareTimestamp"; IfE "tsoutil.CompareTimestamp(currentTSO, maxTS) >= 0" [Ret] []; Call "resetUserTimestamp"; Ret].
+  [Call "GetCurrentTSO"; IfE "err != nil" [Assign "return" "err"; Ret] []; Call "CompareTimestamp"; IfE "tsoutil.CompareTimestamp(currentTSO, maxTS) >= 0" [Assign "return" "nil"; Ret] []; Call "resetUserTimestamp"; Assign "return" "lta.timestampOracle.resetUserTimestamp(lta.leadership, tsoutil.GenerateTS(maxTS), true)"; Ret].
 Proof. reflexivity. Qed.
 
 Lemma skel_lta_GenerateTSO_ok : skel_lta_GenerateTSO =
-  [Call "Check"; IfE "!lta.leadership.Check()" [Ret] []; Call "GetSuffixBits"; Call "getTS"; Ret].
+  [Call "Check"; IfE "!lta.leadership.Check()" [Assign "return" "pdpb.Timestamp{}, errs.ErrGenerateTimestamp.FastGenByArgs(fmt.Sprintf(""requested pd %s of %s allocator"", errs.NotLeaderErr, lta.timestampOracle.dcLocation))"; Ret] []; Call "GetSuffixBits"; Call "getTS"; Assign "return" "lta.timestampOracle.getTS(lta.leadership, count, lta.allocatorManager.GetSuffixBits())"; Ret].
 Proof. reflexivity. Qed.
 
 Lemma skel_getOrCreateLocalTSOSuffix_ok : skel_getOrCreateLocalTSOSuffix =
